@@ -44,6 +44,21 @@ def transformed(inputs, opts):
     return psi2d, psi1d, f1
 
 
+def effective_inputs(g):
+    """inputs of a corpus grid after the documented option transformations and profile extension: (psi2d, psi1d, fpol1d, pressure)"""
+    euo = g.d["eq"]["user_options"]
+    var = {k: bool(euo.get(k)) for k in ("reverse_current", "psi_divide_twopi", "reverse_Bt", "extrapolate_profiles")}
+    psi2d, psi1d, f1 = transformed(g.d["inputs"], var)
+    pr = g.d["inputs"].get("pressure")
+    pr = None if pr is None else np.array(pr, dtype=float)
+    if var["extrapolate_profiles"] and len(f1) and euo.get("psi_sol") is not None:
+        cand = [float(euo["psi_sol"]), float(euo["psi_sol_inner"])]
+        psi_outer = max(cand) if psi1d[-1] > psi1d[0] else min(cand)
+        psi1d, f1, pr2, _ = extended(psi1d, f1, pr if pr is not None else np.zeros_like(psi1d), psi_outer)
+        pr = pr2 if pr is not None else None
+    return psi2d, psi1d, f1, pr
+
+
 class DctInterp:
     """own continuous extension of the inverse DCT-II (independent of hypnotoad.utils.dct_interpolation)"""
 
